@@ -147,7 +147,7 @@ class Unit:
                 denominator[0] = unit
         if numerator[1] not in ('U', 'mol', 'L', 'g') or denominator[0] not in ('U', 'mol', 'L', 'g'):
             raise ValueError("Concentration must be of the form '1 umol/mL'.")
-        return round(numerator[0], config.internal_precision), numerator[1], denominator[0]
+        return numerator[0], numerator[1], denominator[0]
 
     @staticmethod
     def convert_from(substance: Substance, quantity: float, from_unit: str, to_unit: str) -> float:
